@@ -21,7 +21,10 @@ META = {
     "text": "PARTIAL by design. 'proof' applies ONLY to the exact-arithmetic theorems of coq/Properties_C08.v (2x2 closed form returns an "
             "eigen-decomposition for every real symmetric matrix when the thresholds are 0; refuted for every positive absolute threshold; "
             "row-major/column-major hand-over to ?syev is harmless for symmetric input and returns eigenvectors as rows; the hand-over to ?geev "
-            "yields LEFT eigenvectors (refutation of A v = lambda v) and the repaired call yields right eigenvectors; Smith's 3x3 formula). "
+            "yields LEFT eigenvectors (refutation of A v = lambda v) and the repaired call yields right eigenvectors; 3x3 closed form over R: "
+            "clamp of r inactive (|det B| <= 2 by Cauchy-Schwarz), Smith's values are all roots in ascending order for threshold 0 (both branches), "
+            "eig0/orthoComp/eig1/cross product yield an orthonormal eigenbasis for every non-diagonal symmetric matrix (C08_3x3_exact), "
+            "pre-scaling makes the 3x3 result invariant under s*A). "
             "Floating-point accuracy, LAPACK and libm are NOT proved: streams 'sym' and 'nonsym' are TESTS with stated tolerances "
             "(64 n eps ||A|| for n = 1, 2 and LAPACK; 8 sqrt(eps) ||A|| for the closed-form 3x3 path), judged in exact integer arithmetic.",
     "note": "Trusted: Coq kernel, Flocq (binary64 semantics = x86-64 SSE2 double, no FMA contraction), extraction, OCaml driver, C++ harness, "
